@@ -16,7 +16,7 @@ Require Import ITree.Model.Common ITree.Model.RBTree ITree.Model.Pool ITree.Mode
 Require Import ITree.Spec.Spec ITree.Spec.MapSpec.
 Require Import ITree.Proofs.RBInv ITree.Proofs.PoolProofs ITree.Proofs.MapProofs ITree.Proofs.MapTheorems
   ITree.Proofs.KeyListProofs ITree.Proofs.KeyProofs ITree.Proofs.KeyRefine ITree.Proofs.KeyTheorems.
-Require ITree.Proofs.ListProofs.
+Require ITree.Proofs.ListProofs ITree.Model.SegModel ITree.Proofs.SegProofs ITree.Proofs.LayoutProofs.
 
 (* removal from a valid red-black tree never needs a sibling or nephew that is missing (the Rust code
    would dereference node(EMPTY_REF) there) *)
@@ -57,3 +57,21 @@ Qed.
 Theorem C10_total_maplist : forall (h: list ListProofs.uop), ListProofs.uvalid_hist [] h ->
   exists l', ListProofs.ul_run [] h = Ret (l', snd (ListProofs.ua_run [] h)) /\ ListProofs.R l' (fst (ListProofs.ua_run [] h)).
 Proof. exact ListProofs.maplist_refines. Qed.
+
+(* segment tree: no valid history fails (every place an insert writes to or a query looks at is inside
+   the chunk vector, every iterator loop ends within its measure) *)
+Theorem C10_total_seg : forall (lo hi: Z) (s0: SegModel.seg) (h: list SegModel.sop),
+  SegModel.seg_new lo hi = Some s0 -> ITree.Proofs.SegProofs.seg_valid (SegModel.lay s0) h ->
+  exists s outs, SegModel.seg_run s0 h = Ret (s, outs).
+Proof. exact ITree.Proofs.SegProofs.seg_run_no_error. Qed.
+
+(* layout arithmetic stays inside the machine types the Rust code uses (i64 subtraction, usize length,
+   u32 shift amount below 64, bucket index below 32) for every domain whose length fits i64 *)
+Theorem C10_layout_machine_ranges : forall lo hi : Z,
+  (lo <= hi)%Z -> (- 2 ^ 63 <= lo)%Z -> (hi < 2 ^ 63)%Z -> (hi - lo + 1 < 2 ^ 63)%Z ->
+  (0 <= hi - lo < 2 ^ 63)%Z /\ (0 < hi - lo + 1 < 2 ^ 63)%Z /\
+  forall L, SegModel.layout_new lo hi = Some L -> (0 <= SegModel.lscale L <= 58)%Z /\ (48 <= SegModel.lcount L <= 63)%N.
+Proof.
+  intros lo hi H1 H2 H3 H4. destruct (ITree.Proofs.LayoutProofs.machine_ranges lo hi H1 H2 H3 H4) as (A & B & _ & C).
+  split; [exact A|]. split; [exact B|]. intros L HL. destruct (C L HL) as (_ & _ & D & E & _). split; assumption.
+Qed.
